@@ -735,9 +735,21 @@ func TestOptionSequences(t *testing.T) {
 			iopts = append(iopts, invocation.WithNonce(bytes.Repeat([]byte{7}, x)))
 			dopts = append(dopts, delegation.WithNonce(bytes.Repeat([]byte{7}, x)))
 		}
-		for _, extra := range []int{0, 1, 2} {
+		for _, extra := range []int{0, 1, 2, 3, 4, 5} {
 			io, do := append([]invocation.Option{}, iopts...), append([]delegation.Option{}, dopts...)
 			switch extra {
+			case 3: // the same metadata entry given twice with the same value (defaults + per-call options)
+				io = append(io, invocation.WithMeta("env", "prod"), invocation.WithMeta("k", int64(1)), invocation.WithMeta("env", "prod"))
+				do = append(do, delegation.WithMeta("env", "prod"), delegation.WithMeta("k", int64(1)), delegation.WithMeta("env", "prod"))
+			case 4: // the same argument twice with the same value; the same metadata entry with another value
+				io = append(io, invocation.WithArgument("a", int64(1)), invocation.WithArgument("a", int64(1)))
+				do = append(do, delegation.WithMeta("env", "prod"), delegation.WithMeta("env", "test"))
+			case 5: // an argument that the shared argument set already holds, with the same value; bytes given twice
+				tmpl := args.New()
+				_ = tmpl.Add("a", int64(1))
+				_ = tmpl.Add("b", "x")
+				io = append(io, invocation.WithArguments(tmpl), invocation.WithArgument("b", "x"), invocation.WithMeta("blob", []byte{1, 2}), invocation.WithMeta("blob", []byte{1, 2}))
+				do = append(do, delegation.WithMeta("blob", []byte{1, 2}), delegation.WithMeta("blob", []byte{1, 2}))
 			case 1: // options about other fields, twice
 				io = append(io, invocation.WithExpirationIn(time.Hour), invocation.WithExpirationIn(2*time.Hour), invocation.WithoutInvokedAt(), invocation.WithInvokedAtIn(-time.Minute), invocation.WithMeta("k", "v"), invocation.WithArgument("a", 1))
 				do = append(do, delegation.WithExpirationIn(time.Hour), delegation.WithExpirationIn(2*time.Hour), delegation.WithNotBeforeIn(-time.Hour), delegation.WithNotBeforeIn(-time.Minute), delegation.WithMeta("k", "v"))
